@@ -794,3 +794,50 @@ def c20_colon_group(text):
     a = pytrs.PLSSDesc('T154N-R97W ' + text + ' NE/4', config='sec_colon_required')
     picked = len(a.tracts) >= 1 and not any(t.desc.startswith('T154N') for t in a.tracts)
     return picked != has_colon, f'{text!r}: colon present={has_colon}, section accepted under sec_colon_required={picked}: {[(t.trs, t.desc) for t in a.tracts]}'
+
+
+# ------------------------------------------------------------------ C05
+def _c05_parse_list(text):
+    """independent reading of a rendered list: numbers and the connectives between them"""
+    import re
+    nums = [int(x) for x in re.findall(r'\d+', text)]
+    parts = re.split(r'\d+', text)[1:-1]
+    thru = []
+    for p in parts:
+        q = re.sub(r'(Sections|Section|Secs\.?|Sec\.?|Sect\.|Lots|Lot|Lts\.?|Lt\.?|L\.?|§+)\s*', '', p)
+        thru.append(bool(re.search(r'-|–|—|through|thru|\bto\b', q)))
+    return nums, thru
+
+
+@replay('c05_list_text')
+def c05_list_text(text, kind):
+    import pytrs
+    nums, thru = _c05_parse_list(text)
+    out = [nums[0]]
+    desc = False
+    for n, t in zip(nums[1:], thru):
+        if t:
+            a = out[-1]
+            step = 1 if n >= a else -1
+            desc = desc or n < a
+            out += list(range(a + step, n + step, step))
+        else:
+            out.append(n)
+    if kind == 'sec':
+        got = pytrs.find_sec(text)
+        want = [str(x).rjust(2, '0') for x in out]
+        return got != want, f'find_sec({text!r}) = {got}, denoted {want}'
+    t = pytrs.Tract(text, parse_qq=True)
+    return t.ilots != out, f'Tract({text!r}).ilots = {t.ilots}, denoted {out}'
+
+
+@replay('c05_api')
+def c05_api(text, kind, nums, seps):
+    import os
+    src = open(os.path.join(os.path.dirname(__file__), 'c05.py')).read()
+    ns = {}
+    exec(src[src.index('THRU = ['):src.index('def _list_template')], ns)
+    exec(src[src.index('def denoted(nums, seps):'):src.index('def ob_s_loops(ob):')], ns)
+    exec(src[src.index('def api_verdict(text, kind, nums, seps):'):src.index('def obligations(tier):')], ns)
+    why = ns['api_verdict'](text, kind, nums, seps)
+    return why is not None, f'{text!r}: {why}'
